@@ -62,11 +62,26 @@ func c05Eval(c *Ctx, cs Case) {
 	t0 := time.Now().UTC().Add(-2 * time.Second)
 	var blob []byte
 	var err error
+	// results of earlier and later calls are independent values: a signature that is still held must not change
+	// when the library signs something else
+	probe, _ := pkcs7.SignPKCS7(key, cert, oid, []byte("held while the next signature is made"))
+	probeSnap := append([]byte{}, probe...)
 	if p, msg := safely(func() { blob, err = pkcs7.SignPKCS7(key, cert, oid, content) }); p {
 		fail("SignPKCS7 panicked: "+msg, "panic", "")
 		return
 	}
 	t1 := time.Now().UTC().Add(2 * time.Second)
+	if !bytes.Equal(probe, probeSnap) {
+		fail("the bytes returned by an earlier SignPKCS7 call changed when SignPKCS7 was called again (the result aliases memory that is reused)", hx(probe[:min(len(probe), 48)]), hx(probeSnap[:min(len(probeSnap), 48)]))
+	}
+	if err == nil {
+		blobSnap := append([]byte{}, blob...)
+		pkcs7.SignPKCS7(key, cert, pkcs7.OIDData, bytes.Repeat([]byte{0x77}, len(content)+9))
+		if !bytes.Equal(blob, blobSnap) {
+			fail("the bytes returned by SignPKCS7 changed when SignPKCS7 was called again (the result aliases memory that is reused)", hx(blob[:min(len(blob), 48)]), hx(blobSnap[:min(len(blobSnap), 48)]))
+			blob = blobSnap
+		}
+	}
 	if err != nil {
 		fail("SignPKCS7 failed on a valid input: "+err.Error(), "err", "")
 		return
